@@ -41,6 +41,8 @@ type world struct {
 	// fault plan for the next flush (consumed by the first NewTransaction that sees it)
 	failNext string // "", "t", "s", "c"
 	holdNext bool
+	// delayNext: the next flush's Commit takes this long (a slow but responding store: not a fault)
+	delayNext time.Duration
 	holdCh   chan struct{} // non-nil while a commit is held
 	// sends
 	failSends int
@@ -96,6 +98,7 @@ type faultTx struct {
 	changes map[string][]byte    // blind mode: writes applied at Commit
 	plan    string
 	hold    bool
+	delay   time.Duration
 }
 
 type txKey struct{}
@@ -113,8 +116,8 @@ func (d *faultDB) NewTransaction(ctx context.Context, update bool) (database.Tra
 		w.mu.Unlock()
 		return nil, ctx, errDead
 	}
-	plan, hold := w.failNext, w.holdNext
-	w.failNext, w.holdNext = "", false
+	plan, hold, delay := w.failNext, w.holdNext, w.delayNext
+	w.failNext, w.holdNext, w.delayNext = "", false, 0
 	if plan == "t" {
 		w.log = append(w.log, "FT")
 		w.mu.Unlock()
@@ -125,14 +128,14 @@ func (d *faultDB) NewTransaction(ctx context.Context, update bool) (database.Tra
 	}
 	w.mu.Unlock()
 	if w.cfg.blind {
-		ft := &faultTx{db: d, changes: map[string][]byte{}, plan: plan, hold: hold}
+		ft := &faultTx{db: d, changes: map[string][]byte{}, plan: plan, hold: hold, delay: delay}
 		return ft, context.WithValue(ctx, txKey{}, ft), nil
 	}
 	tx, ctx2, err := d.inner.NewTransaction(ctx, update)
 	if err != nil {
 		return nil, ctx, err
 	}
-	ft := &faultTx{db: d, inner: tx, plan: plan, hold: hold}
+	ft := &faultTx{db: d, inner: tx, plan: plan, hold: hold, delay: delay}
 	return ft, context.WithValue(ctx2, txKey{}, ft), nil
 }
 
@@ -168,6 +171,9 @@ func (t *faultTx) Discard() {
 
 func (t *faultTx) Commit() error {
 	w := t.db.w
+	if t.delay > 0 {
+		time.Sleep(t.delay)
+	}
 	if t.hold {
 		w.mu.Lock()
 		ch := w.holdCh
